@@ -585,10 +585,8 @@ structure KvPageOut where
   round : Nat
   more : Bool
 
-/-- accountUpdates.LookupKvPairsByPrefix -/
+/-- accountUpdates.LookupKvPairsByPrefix (`limit = 0` = no limit on the number of results, as in the DB layer) -/
 def pageKv (σ : State) (rnd : Nat) (pfx cursor : Key) (limit maxBytes : Nat) (vals : Bool) : Except Err KvPageOut :=
-  if limit = 0 then .ok ⟨[], σ.dbRound + σ.deltas.length, false⟩
-  else
   match roundOffset σ rnd with
   | .error e => .error e
   | .ok offset =>
